@@ -244,7 +244,7 @@ func onxCalls(ops []map[string]interface{}, def string) (calls []string, lines [
 }
 
 func runC17Case(id string, c *c17Case) {
-	defer recoverCase(id, c)
+	defer watchCase(id, c)()
 	inv := loadInv17()
 	if wd, _ := os.Getwd(); !strings.Contains(wd, "c17-cwd-") { // replay of a single case
 		c17Decoys(append(append([]string{}, inv.Advertised...), inv.Files...))
